@@ -145,7 +145,8 @@ class SDyad:
     def __le__(self, o): return self._cmp(o, "__le__")
     def __gt__(self, o): return self._cmp(o, "__gt__")
     def __ge__(self, o): return self._cmp(o, "__ge__")
-    __hash__ = None
+    def __hash__(self):
+        return 0x53594D
 
     def __float__(self):
         _inc("concretisation of a symbolic float")
